@@ -47,6 +47,9 @@ PLAN = {
              title="exceptions"),
  "C13": dict(machines=["flat", "ortho", "hier2", "hier3", "compl", "block"], profile=dict(MIXED, throws=0.1), mc=MC_PLAIN, invariants=[],
              title="back-end / policy / strategy equivalence"),
+ "C14": dict(machines=["fe_flat", "fe_hier2", "fe_guards"], profile=dict(PLAIN, subs=0.1), mc=MC_PLAIN, invariants=["P_C01", "P_C02"],
+             frontends={"functor": ALL, "basic": ALL, "puml": ["back", "back11", "mp11", "mp11_fct"]},
+             title="front-end equivalence and the PlantUML parser"),
  "C15": dict(machines=["defer", "pseudo", "histA", "compl"], profile=dict(MIXED, throws=0.05, copy=0.25, ninst=3), ninst=3,
              mc=dict(maxcalls=3, budget=0, apis=("start", "pe", "enq", "drain", "copy", "assign"), dirops=(), direvs=(), ninst=2), invariants=["P_C15"],
              title="copies and moves"),
@@ -66,5 +69,5 @@ PLAN = {
 }
 
 import extra
-EXTRA = {"C20": extra.sanitizer_phase,
+EXTRA = {"C20": extra.sanitizer_phase, "C14": extra.puml_tokenizer_phase,
          "C12": lambda prop, pl, tier, v, seed, ev: extra.sanitizer_phase(prop, dict(pl, san_machines=["compl", "policy2"], valgrind=True), tier, v, seed, ev)}
